@@ -601,6 +601,10 @@ outer:
 							props = []string{"C09"}
 							why = " (a function is held until the directive returns; the context was cancelled: the directive must return without waiting for it)"
 						}
+						if sc.GateOpen == "failreturn" {
+							props = []string{"C04", "C07"}
+							why = " (a function is held until the directive returns while another one fails: a fail-fast directive reports the first failure - the error, or the PanicError of the panic - without waiting for functions that are still running)"
+						}
 						if sc.GateOpen == "onfn" {
 							props = []string{"C11"}
 							why = fmt.Sprintf(" (the provider %d of another input of task %d is held until predicate %d is entered: the predicate must start as soon as its own inputs are available)", sc.PredGate[2], sc.PredGate[0], sc.PredGate[1])
